@@ -84,6 +84,14 @@ class ConfigNodeMeta(NamespaceableMeta):
                             # the children are constructed from raw values (see ComposedNode.__init__)
                             for descendant in value.ayns.nodes():
                                 descendant._priority = kwargs[arg_name]
+                # flags given explicitly - by a tag written in front of something the loader has turned into a node already, such as
+                # an implicit f-string or a null - are the node's own from now on ('!unsafe f"..."' must not stay safe)
+                for arg_name in ('delete', 'allow_new', 'safe'):
+                    if kwargs.get(arg_name) is not None:
+                        setattr(value, '_' + arg_name, kwargs[arg_name])
+                if kwargs.get('metadata'):
+                    value._metadata = { **value._metadata, **kwargs['metadata'] }
+
                 if any(k.startswith('implicit_') for k in kwargs.keys()):
                     value._propagate_implicit_values()
 
